@@ -12,6 +12,7 @@ import NmVerif.Basic
     ShapeK.boundedDim k static_vector<size_t,k>                  rank <= k
     ShapeK.dyn          std::vector<size_t>
     SizeK.known n       fixed_size_v = n        SizeK.atMost n   bounded_size_v = n (no fixed size)     SizeK.any
+    SizeK.knownB n b    fixed_size_v = n and bounded_size_v = b (matmul of constant shapes reports both, differently)
 
   The five traits printed by the harness are projections (`SInfo.fixedShape` ... `SInfo.boundedSize`), mirroring
   the `decorator_t` defaults (decorator.hpp:1067-1225).  `SInfo.seen` is what the NEXT view sees of an operand
@@ -45,6 +46,8 @@ inductive SizeK where
   | known (n : Nat)
   | atMost (n : Nat)
   | any
+  /-- fixed_size_v = n next to a DIFFERENT bounded_size_v = b (view::matmul of two constant-shape operands) -/
+  | knownB (n b : Nat)
   deriving DecidableEq, Repr
 
 structure SInfo where
@@ -81,6 +84,7 @@ def SizeK.γ : SizeK → Nat → Prop
   | .known n, m => m = n
   | .atMost n, m => m ≤ n
   | .any, _ => True
+  | .knownB n b, m => m = n ∧ m ≤ b
 
 /-- the run-time shape `s` is an instance of the static knowledge `i` -/
 def SInfo.γ (i : SInfo) (s : Shape) : Prop := i.shape.γ s ∧ i.size.γ (prod s)
@@ -103,8 +107,8 @@ def ShapeK.len? : ShapeK → Option Nat
 def SInfo.fixedShape (i : SInfo) : Option (List Nat) := match i.shape with | .const l => some l | _ => none
 def SInfo.fixedDim (i : SInfo) : Option Nat := i.shape.len?
 def SInfo.boundedDim (i : SInfo) : Option Nat := match i.shape with | .boundedDim k => some k | s => s.len?
-def SInfo.fixedSize (i : SInfo) : Option Nat := match i.size with | .known n => some n | _ => none
-def SInfo.boundedSize (i : SInfo) : Option Nat := match i.size with | .known n => some n | .atMost n => some n | .any => none
+def SInfo.fixedSize (i : SInfo) : Option Nat := match i.size with | .known n => some n | .knownB n _ => some n | _ => none
+def SInfo.boundedSize (i : SInfo) : Option Nat := match i.size with | .known n => some n | .atMost n => some n | .any => none | .knownB _ b => some b
 
 /-! ### what a view sees of its operand -/
 
@@ -122,6 +126,7 @@ def SInfo.seen (i : SInfo) : SInfo :=
           | .const l => .atMost (prod l)
           | .clipped b => .atMost (prod b)
           | _ => .any)
+      | .knownB n _ => .known n      -- size<true> prefers fixed_size_v
       | z => z }
 
 /-- traits of `decorator_t<indexing_t, array, indexer>` from the indexer's dst_shape_type / dst_size_type -/
@@ -344,6 +349,7 @@ def transferFlatten (i : SInfo) : Option SInfo :=
   | .known n => transferReshape (.ct [n]) i
   | .atMost n => transferReshape (.cl [n]) i
   | .any => transferReshape (.rt 1) i
+  | .knownB n _ => transferReshape (.ct [n]) i
 
 def transferBroadcastTo (t : ArrK) (_i : SInfo) : Option SInfo :=
   some (indexingInfo t.toShapeK (productK t.toShapeK))
@@ -423,7 +429,7 @@ def reduceShapeK (ax : AxisK) (keepdims : Bool) (sh : ShapeK) : Option ShapeK :=
 def reduceInfo (own : SizeK) (d : ShapeK) : SInfo :=
   ⟨d, match d with
       | .const l => .known (prod l)
-      | _ => match own with | .known n => .atMost n | .atMost n => .atMost n | .any => .any⟩
+      | _ => match own with | .known n => .atMost n | .atMost n => .atMost n | .any => .any | .knownB _ b => .atMost b⟩
 
 def transferReduce (ax : AxisK) (keepdims : Bool) (i : SInfo) : Option SInfo :=
   (reduceShapeK ax keepdims i.seen.shape).map (reduceInfo i.size)
@@ -528,12 +534,23 @@ def concatShapeK (ax : AxisK) (a b : SInfo) : Option ShapeK :=
   | _, _, _ => some (concatFallback ax a b)
 
 /-- decorator default fixed_size / bounded_size of a two-operand view: sums of the operands' OWN sizes (decorator.hpp:1111-1225) -/
-def sumSizeK : SizeK → SizeK → SizeK
-  | .known x, .known y => .known (x + y)
-  | .known x, .atMost y => .atMost (x + y)
-  | .atMost x, .known y => .atMost (x + y)
-  | .atMost x, .atMost y => .atMost (x + y)
-  | _, _ => .any
+def SizeK.fixed? : SizeK → Option Nat
+  | .known n => some n
+  | .knownB n _ => some n
+  | _ => none
+
+def SizeK.bound? : SizeK → Option Nat
+  | .known n => some n
+  | .knownB _ b => some b
+  | .atMost n => some n
+  | .any => none
+
+def sumSizeK (a b : SizeK) : SizeK :=
+  match a.fixed?, b.fixed? with
+  | some x, some y => .known (x + y)
+  | _, _ => match a.bound?, b.bound? with
+    | some x, some y => .atMost (x + y)
+    | _, _ => .any
 
 def concatInfo (own1 own2 : SizeK) (d : ShapeK) : SInfo :=
   ⟨d, match d with | .const l => .known (prod l) | _ => sumSizeK own1 own2⟩
